@@ -126,7 +126,6 @@ def zbool(x):
 
 
 def mkbx(e):
-    e = z3.simplify(e)
     if z3.is_true(e):
         return True
     if z3.is_false(e):
@@ -545,10 +544,17 @@ class Cases:
         """to a Poly / bit-like by ite summation"""
         vals = [v for _, v in self.cs]
         if all(is_bitlike(v) for v in vals):
-            r = False
+            ts = []
             for g, v in self.cs:
-                r = bor(r, band(g, v))
-            return r
+                t = band(g, v)
+                if is_conc(t):
+                    if t:
+                        return True
+                    continue
+                ts.append(zbool(t))
+            if not ts:
+                return False
+            return BX(z3.Or(ts)) if len(ts) > 1 else BX(ts[0])
         acc = Poly({})
         for g, v in self.cs:
             acc = padd(acc, pmul(topoly(g), topoly(v)))
@@ -559,18 +565,26 @@ def mkcases(cs):
     cs = [(g, v) for g, v in cs if not (is_conc(g) and not g)]
     if len(cs) == 1:
         return cs[0][1]
-    # merge equal concrete leaves
-    merged = {}
-    out = []
+    groups = {}
+    order = []
     for g, v in cs:
-        if is_conc(v) or isinstance(v, (Aff,)):
+        if is_conc(v) or isinstance(v, Aff):
             k = (type(v).__name__, v)
-            if k in merged:
-                i = merged[k]
-                out[i] = (bor(out[i][0], g), v)
-                continue
-            merged[k] = len(out)
-        out.append((g, v))
+        else:
+            k = ("id", id(v))
+        if k not in groups:
+            groups[k] = ([], v)
+            order.append(k)
+        groups[k][0].append(g)
+    out = []
+    for k in order:
+        gs, v = groups[k]
+        if len(gs) == 1:
+            out.append((gs[0], v))
+        elif any(is_conc(g) and g for g in gs):
+            out.append((True, v))
+        else:
+            out.append((BX(z3.Or([zbool(g) for g in gs])), v))
     if len(out) == 1:
         return out[0][1]
     return Cases(out)
